@@ -22,11 +22,18 @@ func init() {
 			"other invocations of the event at a barrier and then checks that its own line carries only its own marks; addresses must be pairwise distinct; the race detector watches the handlers' writes. " +
 			"Also: tag sections that are present but empty, sessions whose recovery function edits the line it is handed after a victim's panic, sessions with exactly one handler per set. An event is non-trivial when >= 2 scribbling invocations were open at the same time; distinct_nontrivial = distinct (tags?, argument count, #fg, #bg, GOMAXPROCS) cells among those.",
 		Assumptions: []string{"invocations of one event meet at a barrier with a 2 s escape; events whose barrier escaped are counted, not judged for foreign marks"},
-		RaceClaim:   func(rep string) bool { return raceBothIn(rep, "props.c15", "props.runC15") },
+		RaceClaim: func(rep string) bool {
+			return raceBothIn(rep, "props.c15", "props.runC15") ||
+				// the copies are made inside the dispatcher: two dispatches that share anything there share lines
+				raceBothIn(rep, "client.(*hSet).dispatch", "client.(*Line).Copy", "client.(*hNode).Handle", "props.runC15")
+		},
 		Plan: func(tier string, seed int64) []Batch {
 			var bs []Batch
 			for _, p := range []int{1, 4, 16} {
 				bs = append(bs, Batch{Name: fmt.Sprintf("p%d", p), Args: map[string]string{"procs": fmt.Sprint(p)}, Race: true, Procs: p, Weight: min(p, 4)})
+			}
+			for _, p := range []int{4, 16} {
+				bs = append(bs, Batch{Name: fmt.Sprintf("builtin-p%d", p), Args: map[string]string{"procs": fmt.Sprint(p), "mode": "builtin"}, Race: true, Procs: p, Weight: min(p, 4)})
 			}
 			if tier == "thorough" {
 				for i := 0; i < 6; i++ {
@@ -51,6 +58,10 @@ type c15Inv struct {
 }
 
 func runC15(c *Ctx) {
+	if c.Arg("mode", "") == "builtin" {
+		runC15Builtin(c)
+		return
+	}
 	events := c.Pick(4000, 40000)
 	if c.Arg("heavy", "") == "1" {
 		events = 70000
